@@ -787,3 +787,19 @@ Proof.
                UOk [(1, e_star); (1, mkEI [1] (tslice (TVar 1)))] r_star false) by (vm_compute; reflexivity).
   rewrite R1. unfold r_star at 1. fold r_star. rewrite div_loop; reflexivity.
 Qed.
+
+Theorem resolver_sound_without_flag_refuted :
+  exists es st, (forall th, ~ unifies th es) /\
+    solve Nat.ltb enum_id 10 es = SSolved st true /\
+    (forall v, exists t, resolve 10 [] st v = ROk t) /\
+    ~ unifies (induced 10 st) es.
+Proof.
+  exists [(TVar 0, tint); (TVar 0, tstring)], [(0, mkEI [0] tint)].
+  split.
+  { intros th U. pose proof (U _ _ (or_introl eq_refl)) as A.
+    pose proof (U _ _ (or_intror (or_introl eq_refl))) as B. vm_compute in A, B. congruence. }
+  split; [vm_compute; reflexivity|]. split.
+  - intros v. destruct v as [|v]; [eexists; vm_compute; reflexivity|].
+    exists (TVar (S v)). cbn. rewrite Nat.eqb_refl. reflexivity.
+  - intros U. pose proof (U _ _ (or_intror (or_introl eq_refl))) as B. vm_compute in B. discriminate.
+Qed.
